@@ -41,11 +41,23 @@ def mk_target(method):
     return Adapter.create(method)
 
 
+def fresh_target(i=L, o=L):
+    """A stand-alone mocked method, to be handed to the transformers' `create` constructors."""
+    return Adapter(i=i, o=o)
+
+
 # every kind: make(rnd) -> (dut, callers, targets, info) ; check(rec, info, cyc) with cyc = record of the cycle
-def make_map(rnd):
-    a, b, c, d = rnd.randrange(1, 8), rnd.randrange(256), rnd.randrange(1, 8), rnd.randrange(256)
-    dut = MethodMap(L, L, i_transform=(L, lambda m, v: {"x": v.x * a + b}), o_transform=(L, lambda m, v: {"x": v.x * c + d}))
-    return dut, [AdapterTrans.create(dut.method)], [mk_target(dut.target)], (a, b, c, d)
+def make_map(via_create):
+    def make(rnd):
+        a, b, c, d = rnd.randrange(1, 8), rnd.randrange(256), rnd.randrange(1, 8), rnd.randrange(256)
+        it, ot = (L, lambda m, v: {"x": v.x * a + b}), (L, lambda m, v: {"x": v.x * c + d})
+        if via_create:
+            t = fresh_target()
+            dut = MethodMap.create(t.iface, i_transform=it, o_transform=ot)
+            return dut, [AdapterTrans.create(dut.method)], [t], (a, b, c, d)
+        dut = MethodMap(L, L, i_transform=it, o_transform=ot)
+        return dut, [AdapterTrans.create(dut.method)], [mk_target(dut.target)], (a, b, c, d)
+    return make
 
 
 def check_map(rec, info, cy, case):
@@ -59,12 +71,17 @@ def check_map(rec, info, cy, case):
         rec.count("calls")
 
 
-def make_filter(uc):
+def make_filter(uc, via_create=False):
     def make(rnd):
         bit = rnd.randrange(2)
         pos = rnd.randrange(3)
         dflt = rnd.randrange(1, 256)
-        dut = MethodFilter(L, L, lambda m, v: v.x[pos] == bit, default={"x": dflt}, use_condition=uc)
+        cond = lambda m, v: v.x[pos] == bit  # noqa: E731
+        if via_create:
+            t = fresh_target()
+            dut = MethodFilter.create(t.iface, cond, default={"x": dflt}, use_condition=uc)
+            return dut, [AdapterTrans.create(dut.method)], [t], (uc, bit, pos, dflt)
+        dut = MethodFilter(L, L, cond, default={"x": dflt}, use_condition=uc)
         return dut, [AdapterTrans.create(dut.method)], [mk_target(dut.target)], (uc, bit, pos, dflt)
     return make
 
@@ -89,7 +106,7 @@ def check_filter(rec, info, cy, case):
         rec.count("filter_blocked_by_unready_target")
 
 
-def make_product(n, tr, default_comb):
+def make_product(n, tr, default_comb, via_create=False):
     def make(rnd):
         cls = MethodTryProduct if tr else MethodProduct
         if default_comb:
@@ -98,9 +115,53 @@ def make_product(n, tr, default_comb):
             comb = (L, lambda m, res: {"x": Cat(*[s for s, _ in res])})
         else:
             comb = (L, lambda m, res: {"x": sum((r.x for r in res), start=C(0, 8))[:8]})
+        if via_create:
+            ts = [fresh_target() for _ in range(n)]
+            dut = cls.create([t.iface for t in ts], comb)
+            return dut, [AdapterTrans.create(dut.method)], ts, (n, tr, default_comb)
         dut = cls(L, [L] * n, comb)
         return dut, [AdapterTrans.create(dut.method)], [mk_target(t) for t in dut.targets], (n, tr, default_comb)
     return make
+
+
+class TwoTryProducts(Elaboratable):
+    """Two MethodTryProducts contending for one shared exclusive target (each also has a private target)."""
+
+    def __init__(self, shared, priv):
+        comb = (L, lambda m, res: {"x": Cat(*[s for s, _ in res])})
+        self.p = [MethodTryProduct.create([shared.iface, priv[k].iface], comb) for k in range(2)]
+
+    def elaborate(self, platform):
+        m = TModule()
+        m.submodules.p0, m.submodules.p1 = self.p
+        return m
+
+
+def make_try_shared(rnd):
+    shared, priv = fresh_target(), [fresh_target(), fresh_target()]
+    dut = TwoTryProducts(shared, priv)
+    return dut, [AdapterTrans.create(dut.p[0].method), AdapterTrans.create(dut.p[1].method)], [shared] + priv, ()
+
+
+def check_try_shared(rec, info, cy, case):
+    en, arg, done, out = cy["c_en"], cy["c_arg"], cy["c_done"], cy["c_out"]
+    ten, td, ta = cy["t_en"], cy["t_done"], cy["t_arg"]
+    for k in range(2):
+        rec.check("try_product:always_executes_when_enabled", done[k] == en[k], case=case, detail=cy)
+        if done[k]:
+            rec.check("try_product:private_target_called_iff_ready", td[1 + k] == ten[1 + k] and bool(out[k] >> 1 & 1) == ten[1 + k], case=case, detail=cy)
+    callers = [k for k in range(2) if done[k]]
+    # the shared exclusive target serves at most one product per cycle; the success bit must say which one
+    served = [k for k in callers if out[k] & 1]
+    rec.check("try_product:success_reported_exactly_for_the_call_that_happened", len(served) == int(td[0]) and (not td[0] or ta[0] == arg[served[0]]), case=case,
+              detail=dict(cy, products_reporting_success_on_shared_target=served))
+    if callers and ten[0]:
+        rec.check("try_product:ready_shared_target_is_called_by_some_product", td[0], case=case, detail=cy)
+    if len(callers) == 2 and ten[0]:
+        rec.count("try_product_contention_cycles")
+    rec.nontrivial(f"tryshared|{''.join(str(int(x)) for x in en)}|{''.join(str(int(x)) for x in ten)}")
+    if callers:
+        rec.count("calls")
 
 
 def check_product(rec, info, cy, case):
@@ -130,6 +191,9 @@ def check_product(rec, info, cy, case):
 
 
 def make_connect(rnd):
+    if rnd.random() < 0.5:
+        t1, t2 = fresh_target(), fresh_target()
+        return ConnectTrans.create(t1.iface, t2.iface), [], [t1, t2], ()
     dut = ConnectTrans(L, L)
     return dut, [], [mk_target(dut.method1), mk_target(dut.method2)], ()
 
@@ -145,6 +209,9 @@ def check_connect(rec, info, cy, case):
 
 def make_crossbar(rnd):
     n1, n2 = rnd.randint(1, 3), rnd.randint(1, 3)
+    if rnd.random() < 0.5:
+        ts = [fresh_target() for _ in range(n1 + n2)]
+        return CrossbarConnectTrans.create([t.iface for t in ts[:n1]], [t.iface for t in ts[n1:]]), [], ts, (n1, n2)
     dut = CrossbarConnectTrans(n1, n2, L, L)
     return dut, [], [mk_target(x) for x in dut.methods1] + [mk_target(x) for x in dut.methods2], (n1, n2)
 
@@ -174,6 +241,10 @@ def check_crossbar(rec, info, cy, case):
 
 def make_nonex(rnd):
     k = rnd.randint(1, 3)
+    if rnd.random() < 0.5:
+        t = fresh_target()
+        dut = NonexclusiveWrapper.create(t.iface)
+        return dut, [AdapterTrans.create(dut.method) for _ in range(k)], [t], (k,)
     dut = NonexclusiveWrapper(L, L)
     return dut, [AdapterTrans.create(dut.method) for _ in range(k)], [mk_target(dut.target)], (k,)
 
@@ -196,6 +267,10 @@ def check_nonex(rec, info, cy, case):
 
 def make_collector(rnd):
     n = rnd.randint(1, 4)
+    if rnd.random() < 0.5:
+        ts = [fresh_target(i=[], o=L) for _ in range(n)]
+        dut = Collector.create([t.iface for t in ts])
+        return dut, [AdapterTrans.create(dut.method)], ts, {"n": n, "fifo": collections.deque(), "given": 0, "got": 0}
     dut = Collector(n, L)
     return dut, [AdapterTrans.create(dut.method)], [mk_target(t) for t in dut.targets], {"n": n, "fifo": collections.deque(), "given": 0, "got": 0}
 
@@ -224,9 +299,15 @@ def check_collector(rec, info, cy, case):
 
 
 KINDS = {
-    "MethodMap": (make_map, check_map),
+    "MethodMap": (make_map(False), check_map),
+    "MethodMap.create": (make_map(True), check_map),
     "MethodFilter": (make_filter(False), check_filter),
     "MethodFilter(use_condition)": (make_filter(True), check_filter),
+    "MethodFilter.create": (make_filter(False, True), check_filter),
+    "MethodFilter.create(use_condition)": (make_filter(True, True), check_filter),
+    "MethodProduct.create/2": (make_product(2, False, False, True), check_product),
+    "MethodTryProduct.create/2": (make_product(2, True, False, True), check_product),
+    "MethodTryProduct/shared_target": (make_try_shared, check_try_shared),
     "MethodProduct/1": (make_product(1, False, False), check_product),
     "MethodProduct/3": (make_product(3, False, False), check_product),
     "MethodProduct/2/default_combiner": (make_product(2, False, True), check_product),
@@ -266,8 +347,8 @@ def run_history(rec, kind, rnd, cycles, case):
                 if cyc % 40 == 39:
                     pc, pt = rnd.choice([0.3, 0.7, 1.0]), rnd.choice([0.1, 0.5, 0.9, 1.0])
                 cy = {"cycle": cyc, "c_en": [], "c_arg": [], "t_en": [], "t_ret": []}
-                for c in callers:
-                    en, arg = rnd.random() < pc, rnd.randrange(256)
+                for ci, c in enumerate(callers):
+                    en, arg = rnd.random() < pc, (rnd.randrange(128) << 1 | (ci & 1))
                     ctx.set(c.en, en)
                     if "x" in dict(c.data_in.shape()):
                         ctx.set(c.data_in, {"x": arg})
@@ -329,6 +410,6 @@ RULE = ("one harness per transformer (MethodMap with random affine maps, MethodF
         "the driver sets every cycle (probabilities re-drawn every 40 cycles) and whose done/argument it observes; distinct non-trivial case = (transformer, "
         "readiness pattern of the targets / callers)")
 ASSUMPTIONS = ["targets are mocked by Adapter: ready = en, result = data_in, observed argument = data_out"]
-MINIMA = {"quick": {"cycles": 6000, "calls": 1500, "calls_condition_true": 100, "calls_condition_false": 100, "filter_not_blocked_by_unready_target": 10,
+MINIMA = {"quick": {"cycles": 6000, "calls": 1500, "calls_condition_true": 100, "calls_condition_false": 100, "try_product_contention_cycles": 50, "filter_not_blocked_by_unready_target": 10,
                     "filter_blocked_by_unready_target": 10, "distinct": 40},
           "thorough": {"cycles": 400000, "distinct": 80}}
